@@ -4,6 +4,8 @@ import (
 	"fmt"
 	"go/constant"
 	"go/token"
+	"sort"
+	"strings"
 
 	"golang.org/x/tools/go/ssa"
 
@@ -347,7 +349,7 @@ func runC15(c *core.Ctx) {
 		if len(loads) == 0 {
 			c.Undecided(key+"#seen-before-load", p.Pos(fn.Pos()), "the function consults LinkVisitOnlyOnce but no block load was found in it or its helpers")
 		}
-		if ph := phaseParam(fn); ph != nil {
+		if hasPhase(fn) {
 			core.InstrsR(fn, func(in ssa.Instruction) {
 				mu, ok := in.(*ssa.MapUpdate)
 				if !ok || !core.IsFieldRef(mu.Map, "Progress", "SeenLinks") {
@@ -355,7 +357,7 @@ func runC15(c *core.Ctx) {
 				}
 				trav := core.EdgesWhere(fn, func(r core.Rel) bool {
 					cv := core.ConstVal(r.Y)
-					return r.Op == token.EQL && core.Strip(r.X) == ssa.Value(ph) && cv != nil
+					return r.Op == token.EQL && isPhaseValue(r.X) && cv != nil
 				})
 				path, reached := core.Reach(fn, nil, isTarget(in), trav, nil)
 				c.Check(len(trav) > 0 && !reached, key+"#seen-insert-traverse-only", p.Pos(mu.Pos()), "recorded only in the traverse phase", "a link is recorded as seen outside the traverse phase (the preload pass would make the real pass skip it)", p.Witness(path)...)
@@ -363,10 +365,87 @@ func runC15(c *core.Ctx) {
 		}
 	}
 
+	// ---------------------------------------------------------------- startgate
+	c.Rule("C15.startgate", "the start path only matters until it has been passed: in package traversal every comparison of a child's segment with a segment of Config.StartAtPath (PathSegment.Equals with an operand taken from StartAtPath.Segments()) is reachable only over the edge on which Progress.PastStartAtPath was found false - once the walk is past the start path no child is ever skipped (or chosen) because of it", 1)
+	for _, fn := range tr.fns {
+		var cmps []ssa.CallInstruction
+		for _, ci := range core.Calls(fn) {
+			if !core.IsMethod(ci, "", "PathSegment", "Equals") {
+				continue
+			}
+			fromStart := false
+			ops := append([]ssa.Value{}, ci.Common().Args...)
+			if ci.Common().IsInvoke() {
+				ops = append(ops, ci.Common().Value)
+			}
+			for _, a := range ops {
+				for w := range core.BackSlice(a, core.SliceOpts{Stores: true, Indices: false, ThroughCalls: true}) {
+					if cl, ok := w.(*ssa.Call); ok && core.IsMethod(cl, "", "Path", "Segments") {
+						for w2 := range core.BackSlice(core.Receiver(cl), core.SliceOpts{Stores: true}) {
+							if core.IsFieldRef(w2, "Config", "StartAtPath") {
+								fromStart = true
+							}
+						}
+					}
+				}
+			}
+			if fromStart {
+				cmps = append(cmps, ci)
+			}
+		}
+		if len(cmps) == 0 {
+			continue
+		}
+		// the function that owns the variables a closure tests is the closure's parent: edges are looked for in the
+		// function the comparison stands in
+		isPast := func(v ssa.Value) bool { return core.IsFieldRef(v, "Progress", "PastStartAtPath") }
+		notPast := core.BoolEdgesWhere(fn, isPast, false)
+		for i, cmp := range cmps {
+			path, reached := core.Reach(fn, nil, isTarget(cmp), notPast, nil)
+			c.Check(len(notPast) > 0 && !reached, fmt.Sprintf("%s#start-compare%d", core.FuncKey(fn), i+1), p.Pos(cmp.Pos()), "compared only while not past the start path", "a child's segment is compared with the start path on a path where Progress.PastStartAtPath was not found false: after the start path has been passed, children of later subtrees can still be skipped for not lying on it", p.Witness(path)...)
+		}
+	}
+
+	// ---------------------------------------------------------------- seeninit
+	c.Rule("C15.seeninit", "the set of links already visited lives as long as the walk: a function that stores a freshly made map into Progress.SeenLinks is never called from a function that lies on a recursion cycle of package traversal (each level of a recursive walk would otherwise start with an empty set, and LinkVisitOnlyOnce would only de-duplicate links among siblings)", 1)
+	for _, fn := range tr.fns {
+		var makes []*ssa.Store
+		core.Instrs(fn, func(in ssa.Instruction) {
+			st, ok := in.(*ssa.Store)
+			if !ok {
+				return
+			}
+			if _, isMake := core.Strip(st.Val).(*ssa.MakeMap); isMake && core.IsFieldRef(st.Addr, "Progress", "SeenLinks") {
+				makes = append(makes, st)
+			}
+		})
+		if len(makes) == 0 {
+			continue
+		}
+		// every function of the package that can run fn inside a recursion: callers (transitively, through functions
+		// that are not API entry points of their own recursion) that lie on a cycle
+		var bad []string
+		for _, g := range tr.fns {
+			if !tr.recursive(g) {
+				continue
+			}
+			for _, h := range tr.succs(g) {
+				if h == fn {
+					bad = append(bad, core.FuncKey(g))
+				}
+			}
+		}
+		sort.Strings(bad)
+		if tr.recursive(fn) {
+			bad = append(bad, core.FuncKey(fn)+" (itself recursive)")
+		}
+		c.Check(len(bad) == 0, core.FuncKey(fn)+"#seen-set-created-once", p.Pos(makes[0].Pos()), "the seen-set is created outside the recursion", "the function that creates Progress.SeenLinks afresh is called from inside a recursive walk: "+strings.Join(bad, ", ")+" - every level of that walk forgets the links seen so far, so a link reachable at two depths is loaded twice despite LinkVisitOnlyOnce")
+	}
+
 	// ---------------------------------------------------------------- skip
 	c.Rule("C15.skip", "in the visiting walk (the function with a phase parameter that loads blocks, helpers expanded) the loader's error is tested for the SkipMe type and that case returns nil: skipping a block removes exactly that subtree and is not an error", 1)
 	for _, fn := range tr.fns {
-		if fn.Parent() != nil || phaseParam(fn) == nil {
+		if fn.Parent() != nil || !hasPhase(fn) {
 			continue
 		}
 		loadsBlocks := false
